@@ -138,6 +138,28 @@ def x_tax(report):
     ss = norm(ast.unparse(_method(tree, "ClassificationResult", "set_status")))
     if "elif containment_threshold is not None and self.fraction >= containment_threshold: self.status = 'match'" not in ss:
         raise Unrecognised("ClassificationResult.set_status", "containment comparison changed")
+    # LineageDB.load, LIN branch: is `ranks` assigned before the row loop? (finding C19.4)
+    ld = None
+    for node in ast.walk(tree):
+        if isinstance(node, ast.ClassDef) and node.name == "LineageDB":
+            for f in node.body:
+                if isinstance(f, ast.FunctionDef) and f.name == "load":
+                    ld = norm(ast.unparse(f))
+    if ld is None:
+        raise Unrecognised("LineageDB.load", "method not found")
+    lin_asis = norm("if lins: notify('Trying to read LIN taxonomy assignments.') if 'lin' not in header: "
+                    "raise ValueError(f\"'lin' column not found: cannot read LIN taxonomy assignments from {filename}.\") "
+                    "if ictv:")
+    lin_init = lin_asis.replace(" if ictv:", " ranks = [] if ictv:")
+    if lin_init in ld:
+        lin_ranks_init = True
+    elif lin_asis in ld:
+        lin_ranks_init = False
+    else:
+        raise Unrecognised("LineageDB.load", "LIN branch not one of the two modelled shapes")
+    if "return LineageDB(assignments, ranks)" not in ld:
+        raise Unrecognised("LineageDB.load", "return statement changed")
+    out["lin_ranks_initialised"] = lin_ranks_init
     # get_ident (module level)
     gi = None
     for node in tree.body:
@@ -166,6 +188,9 @@ def taxRepaired : Bool := {'true' if repaired else 'false'}
 def taxTolDen : Nat := {tol_den}
 /-- true = the variant that keeps `f_weighted <= 0 -> error` and does not clamp the weighted remainder (v2) -/
 def taxRepairStrict : Bool := {'true' if strict else 'false'}
+/-- does `LineageDB.load` assign `ranks` in its LIN branch before reading rows (false = a header-only LIN file
+    ends in UnboundLocalError, finding C19.4) -/
+def taxLinRanksInit : Bool := {'true' if lin_ranks_init else 'false'}
 """
 
 
